@@ -1,6 +1,6 @@
 (* C19 — property theorems only: each closed by [exact] and followed by Print Assumptions. *)
-From Coq Require Import List Arith NArith.
-From AV Require Import Base.Bytes Model.C19_Bits Proofs.C19_Chunks Proofs.C19_Masks Proofs.C19_LowBit.
+From Coq Require Import List Arith NArith ZArith.
+From AV Require Import Base.Bytes Model.C19_Bits Proofs.C19_Chunks Proofs.C19_Masks Proofs.C19_LowBit Proofs.C19_IndexIter.
 Local Open Scope N_scope.
 
 (* Chunk iteration: bit j of the n-th u64 yielded by BitChunks::iter is exactly bit 64n+j of the
@@ -42,3 +42,12 @@ Theorem index_iter_step_reports_min : forall m t i,
   N.testbit ((2 * m + 1) * 2^t) i = true -> t <= i.
 Proof. exact lowest_is_min. Qed.
 Print Assumptions index_iter_step_reports_min.
+
+(* BitIndexIterator, the whole loop: over ANY list of u64 words (prefix, chunks, suffix of an
+   UnalignedBitChunk) starting at chunk offset c, the iterator yields c + p for exactly the
+   positions p of the set bits of the concatenated words, in increasing order; the inner-loop
+   fuel of 64 steps is proved sufficient. *)
+Theorem index_iter_yields_set_positions : forall ws c, Forall (fun w => w < 2^64) ws ->
+  index_iter_words ws c = map (fun i => (c + Z.of_nat i)%Z) (positions (words_bits ws)).
+Proof. exact index_iter_words_spec. Qed.
+Print Assumptions index_iter_yields_set_positions.
